@@ -1047,7 +1047,7 @@ func (st *c07State) checkN3() {
 				if !b.Exact {
 					opaque = true
 				}
-				if og := st.eng.opaqueGuards(fn, u.in.Block(), call, []c07flowKey{{c07Int, call}}); len(og) > 0 {
+				if og := st.eng.opaqueGuards(fn, u.in.Block(), call, []c07flowKey{{kind: c07Int, v: call}}); len(og) > 0 {
 					opaque = true
 				}
 				bad = append(bad, fmt.Sprintf("%s at %s (value may be %d)", u.role, p.Pos(instrPos(u.in)), -1+u.off))
@@ -1202,6 +1202,9 @@ func (st *c07State) checkN4() {
 					return
 				}
 				lo, hi, mx := c07ClassifyBound(s.Low, x), c07ClassifyBound(s.High, x), c07ClassifyBound(s.Max, x)
+				if mx.kind == "nil" && st.checkLenMinusVar(fn, s, x, lo, hi, seen) {
+					return
+				}
 				if lo.kind == "var" || hi.kind == "var" || mx.kind == "var" {
 					st.stats["n4_sites_variable"]++
 					return
@@ -1255,7 +1258,7 @@ func (st *c07State) checkN4() {
 				return
 			}
 			root := c07SameLen(x)
-			subjects := []c07flowKey{{c07Len, x}, {c07Len, root}}
+			subjects := []c07flowKey{{kind: c07Len, v: x}, {kind: c07Len, v: root}}
 			og := st.eng.opaqueGuards(fn, in.Block(), root, subjects)
 			if !b.Exact || len(og) > 0 {
 				why := b.Why
@@ -1271,6 +1274,123 @@ func (st *c07State) checkN4() {
 				fmt.Sprintf("input: %s of length %d", st.describeVal(x, 0), b.Lo))
 		})
 	}
+}
+
+// c07LenMinus: v is len(x') - w with x' length-equal to x and w not a constant.
+func c07LenMinus(v, x ssa.Value) (*ssa.BinOp, bool) {
+	if v == nil {
+		return nil, false
+	}
+	bo, ok := c07Settle(v).(*ssa.BinOp)
+	if !ok || bo.Op != token.SUB {
+		return nil, false
+	}
+	a, ok := c07LenArg(bo.X)
+	if !ok || c07SameLen(a) != c07SameLen(x) {
+		return nil, false
+	}
+	if _, isC := c07ConstInt(bo.Y); isC {
+		return nil, false
+	}
+	return bo, true
+}
+
+// checkLenMinusVar: x[len(x)-v:] / x[:len(x)-v] / x[c:len(x)-v] with a
+// non-constant v (a tag or key size): the offset must be provably >= 0 (>= c)
+// and v >= 0. A remainder test on the offset does not bound its sign.
+func (st *c07State) checkLenMinusVar(fn *ssa.Function, s *ssa.Slice, x ssa.Value, lo, hi c07Bound, seen map[string]int) bool {
+	p, r := st.p, st.r
+	var d *ssa.BinOp
+	var need int64
+	shape := ""
+	dl, okL := c07LenMinus(s.Low, x)
+	dh, okH := c07LenMinus(s.High, x)
+	switch {
+	case okL && (hi.kind == "nil" || (hi.kind == "lenminus" && hi.c == 0)):
+		d, shape = dl, "[len-v:]"
+	case okH && (lo.kind == "nil" || lo.kind == "const"):
+		d, shape = dh, "[:len-v]"
+		if lo.kind == "const" {
+			need = lo.c
+			shape = fmt.Sprintf("[%d:len-v]", lo.c)
+		}
+	default:
+		return false
+	}
+	st.stats["n4_sites_checked"]++
+	name := FuncName(p, fn)
+	base := fmt.Sprintf("%s %s%s v=%s", name, st.describeVal(x, 0), shape, st.describeVal(d.Y, 0))
+	seen[base]++
+	construct := base
+	if seen[base] > 1 {
+		construct = fmt.Sprintf("%s #%d", base, seen[base])
+	}
+	pos := p.Pos(instrPos(s))
+	at := s.Block()
+	b := st.eng.intAt(d, at)
+	bv := st.eng.intAt(d.Y, at)
+	if b.Lo >= need && bv.Lo >= 0 {
+		r.OK(c07N4, construct, pos, fmt.Sprintf("the offset len-v is >= %d on every path (%s) and v >= 0", b.Lo, b.Why))
+		return true
+	}
+	unclass := func(why string) {
+		r.Trivial(c07N4, construct, pos, "unclassified: "+why)
+		st.unclassified(c07N4, construct, why)
+	}
+	if b.Lo >= need || !b.Exact {
+		unclass("offset or size of unknown origin: " + b.Why)
+		return true
+	}
+	st.eng.remLinear = true
+	clean := st.eng.ingredientsClean(fn, at, d, 0) && len(st.eng.opaqueGuards(fn, at, d, []c07flowKey{{kind: c07Int, v: d}})) == 0
+	st.eng.remLinear = false
+	_, hiV, okV := st.eng.intConsts(d.Y, 0)
+	if !clean || !okV {
+		unclass("guarded by a condition the engine cannot interpret")
+		return true
+	}
+	// remainder tests on the offset: (len-v)%m == 0 admits len = v mod m, which
+	// is below v exactly when v >= m
+	for _, m := range st.remGuards(fn, at, d) {
+		if hiV < m {
+			unclass("a remainder test with a modulus larger than the size bounds the length")
+			return true
+		}
+	}
+	r.Violation(c07N4, construct, pos,
+		fmt.Sprintf("%s%s: the offset len(%s)-v can be negative (down to %d: %s) on a path to it — no test len >= v (or offset >= 0) dominates it, and a remainder test such as (len-v)%%m == 0 does not bound the sign (Go's %% keeps the sign of the dividend): an input shorter than v makes %s panic (slice bounds out of range) instead of returning an error",
+			st.describeVal(x, 0), shape, st.describeVal(x, 0), b.Lo, b.Why, name),
+		fmt.Sprintf("input: %s shorter than v by a multiple of the modulus (e.g. empty)", st.describeVal(x, 0)))
+	return true
+}
+
+// remGuards: moduli m of tests (d' % m ==/!= 0) on paths to at, d' equal to d.
+func (st *c07State) remGuards(fn *ssa.Function, at *ssa.BasicBlock, d ssa.Value) []int64 {
+	var out []int64
+	reach := c07ReachesBlock(fn, at)
+	for _, b := range fn.Blocks {
+		if !reach[b] || len(b.Instrs) == 0 {
+			continue
+		}
+		ifi, ok := b.Instrs[len(b.Instrs)-1].(*ssa.If)
+		if !ok {
+			continue
+		}
+		cmp, ok := decodeCond(ifi.Cond, true)
+		if !ok {
+			continue
+		}
+		for _, side := range []ssa.Value{cmp.X, cmp.Y} {
+			if bo, ok := side.(*ssa.BinOp); ok && bo.Op == token.REM && st.eng.sameInt(bo.X, d, 0) {
+				if m, ok := c07ConstInt(bo.Y); ok && m > 0 {
+					out = append(out, m)
+				} else {
+					out = append(out, c07PosInf)
+				}
+			}
+		}
+	}
+	return out
 }
 
 func c07IndexNeed(b c07Bound) (int64, string) {
@@ -1295,7 +1415,7 @@ func (st *c07State) intSite(rule, construct, pos string, fn *ssa.Function, v ssa
 		r.OK(rule, construct, pos, fmt.Sprintf("%s >= %d on every path", what, b.Lo))
 		return
 	}
-	og := st.eng.opaqueGuards(fn, at, v, []c07flowKey{{c07Int, v}})
+	og := st.eng.opaqueGuards(fn, at, v, []c07flowKey{{kind: c07Int, v: v}})
 	// also conditions on the ingredients of v
 	if !b.Exact || len(og) > 0 || !st.ingredientsClean(fn, at, v, 0) {
 		r.Trivial(rule, construct, pos, "unclassified: "+b.Why)
@@ -1313,30 +1433,8 @@ func c07LoStr(lo int64) string {
 	return fmt.Sprint(lo)
 }
 
-// ingredientsClean: none of the integer ingredients of v (operands of its
-// arithmetic, lengths it is computed from) is constrained by a condition the
-// engine cannot interpret.
 func (st *c07State) ingredientsClean(fn *ssa.Function, at *ssa.BasicBlock, v ssa.Value, depth int) bool {
-	if depth > 4 {
-		return false
-	}
-	switch x := v.(type) {
-	case *ssa.BinOp:
-		return st.ingredientsClean(fn, at, x.X, depth+1) && st.ingredientsClean(fn, at, x.Y, depth+1)
-	case *ssa.Const:
-		return true
-	case *ssa.Call:
-		if a, ok := c07LenArg(x); ok {
-			root := c07SameLen(a)
-			return len(st.eng.opaqueGuards(fn, at, root, []c07flowKey{{c07Len, a}, {c07Len, root}, {c07Int, x}})) == 0
-		}
-		return false
-	case *ssa.Parameter:
-		return len(st.eng.opaqueGuards(fn, at, x, []c07flowKey{{c07Int, x}})) == 0
-	case *ssa.Convert:
-		return st.ingredientsClean(fn, at, x.X, depth+1)
-	}
-	return false
+	return st.eng.ingredientsClean(fn, at, v, depth)
 }
 
 func (st *c07State) checkN5() {
@@ -1533,7 +1631,7 @@ func (st *c07State) ivFree(fn *ssa.Function, v ssa.Value, at *ssa.BasicBlock, de
 	if !ok || depth > 5 {
 		return "", ""
 	}
-	if len(st.eng.opaqueGuards(fn, at, v, []c07flowKey{{c07Len, v}})) > 0 {
+	if len(st.eng.opaqueGuards(fn, at, v, []c07flowKey{{kind: c07Len, v: v}})) > 0 {
 		return "", ""
 	}
 	if st.eng.inputFunc(fn) {
